@@ -68,7 +68,8 @@ def run(tier, wd):
                 continue
             seen.add(key)
             n += 1
-            groups.append({"rel": "swap", "members": [{"si": si, "env": [], "argv": a}, {"si": si, "env": [], "argv": b}]})
+            env = sorted(rnd.sample(["-a", "-b", "-o", "-e"], rnd.choice([1, 2]))) if rnd.random() < 0.25 else []
+            groups.append({"rel": "swap", "members": [{"si": si, "env": env, "argv": a}, {"si": si, "env": env, "argv": b}]})
     triples = gc.run_groups(rep, wd, binpath, [p], specs, groups, "swap")
     gc.finish_groups(rep, [p], specs, triples,
                      "a group = one --free spec x a command line (random sentence of the spec, runs of occurrences shuffled, sometimes perturbed) "
